@@ -67,6 +67,7 @@ type CmdModel struct {
 	Stdin              []string // lines for set /p
 	EndlocalPopsCaller bool     // variant V1
 	forVars            map[byte]string
+	lint               bool // structural parsing only: special characters in simple commands are tolerated
 }
 
 func (m *CmdModel) unmodelled(format string, a ...interface{}) {
@@ -162,6 +163,9 @@ func (m *CmdModel) percentExpand(line string) string {
 			continue
 		}
 		if tilde {
+			if m.lint {
+				continue
+			}
 			m.unmodelled("percent modifier %q", line[i:])
 		}
 		if j < len(line) && line[j] == '*' {
@@ -271,6 +275,12 @@ func (p *cmdParser) parseSimple() cmdNode {
 			continue
 		}
 		if inq {
+			continue
+		}
+		if p.m.lint && (c == '^' || c == '|' || c == '<' || c == '>') {
+			if c == '^' {
+				i++
+			}
 			continue
 		}
 		if c == '^' {
@@ -476,7 +486,7 @@ func (p *cmdParser) parseFor() cmdNode {
 		p.m.unmodelled("for: expected do, got %q", do)
 	}
 	n.body = p.parseCommand()
-	if n.opts != "delims=" {
+	if n.opts != "delims=" && !p.m.lint {
 		p.m.unmodelled("for /f options %q", n.opts)
 	}
 	return n
